@@ -70,10 +70,16 @@ pub struct RunOut {
     pub sample: Option<Value>,
     /// extra replay fields (for artefact-based replays)
     pub replay_extra: Value,
+    /// number of cases this run evaluated (enumerating runs evaluate many)
+    pub evals: u64,
+    /// keys of further distinct non-trivial cases of an enumerating run
+    pub more_keys: Vec<u64>,
+    /// further violations (other signatures) found by an enumerating run: (violation, replay extra)
+    pub also: Vec<(Violation, Value)>,
 }
 impl RunOut {
     pub fn new() -> Self {
-        RunOut { digest: 0, violation: None, key: 0, nontrivial: false, stats: IoStats::default(), probes: Probes::default(), steps: 0, sim_ns: 0, wtape: vec![], ftape: vec![], sample: None, replay_extra: Value::Null }
+        RunOut { digest: 0, violation: None, key: 0, nontrivial: false, stats: IoStats::default(), probes: Probes::default(), steps: 0, sim_ns: 0, wtape: vec![], ftape: vec![], sample: None, replay_extra: Value::Null, evals: 1, more_keys: vec![], also: vec![] }
     }
 }
 
@@ -279,6 +285,22 @@ pub fn shrink(check: &dyn Check, index: u64, master: u64, tier: Tier, first: Run
     (best, tries)
 }
 
+// ------------------------------------------------------------------ heartbeat
+static HB: std::sync::OnceLock<std::fs::File> = std::sync::OnceLock::new();
+static HB_COUNTER: std::sync::atomic::AtomicU64 = std::sync::atomic::AtomicU64::new(0);
+static HB_INDEX: std::sync::atomic::AtomicU64 = std::sync::atomic::AtomicU64::new(0);
+/// Tell the supervisor's watchdog that the current run is making progress (sub-case boundary)
+pub fn tick() {
+    if let Some(f) = HB.get() {
+        let c = HB_COUNTER.fetch_add(1, std::sync::atomic::Ordering::Relaxed) + 1;
+        let i = HB_INDEX.load(std::sync::atomic::Ordering::Relaxed);
+        let mut hbuf = [0u8; 16];
+        hbuf[..8].copy_from_slice(&i.to_le_bytes());
+        hbuf[8..].copy_from_slice(&c.to_le_bytes());
+        let _ = f.write_at(&hbuf, 0);
+    }
+}
+
 // ------------------------------------------------------------------ worker (child process)
 pub struct WorkerArgs {
     pub tier: Tier,
@@ -332,11 +354,10 @@ pub fn replay_json(check: &dyn Check, index: u64, master: u64, tier: Tier, o: &R
 pub fn worker(check: &dyn Check, a: WorkerArgs) -> i32 {
     install_panic_hook();
     let start = Instant::now();
-    let hb = std::fs::OpenOptions::new().create(true).write(true).open(&a.hb).expect("hb file");
+    let _ = HB.set(std::fs::OpenOptions::new().create(true).write(true).open(&a.hb).expect("hb file"));
     let mut out = std::fs::OpenOptions::new().create(true).append(true).open(&a.out).expect("out file");
     let nbatches = (a.runs + a.batch - 1) / a.batch;
     let mut b = a.shard;
-    let mut counter: u64 = 0;
     let mut keys: HashSet<u64> = HashSet::new();
     let mut shrunk_sigs: HashSet<String> = HashSet::new();
     while b < nbatches {
@@ -363,14 +384,11 @@ pub fn worker(check: &dyn Check, a: WorkerArgs) -> i32 {
             if a.skip.contains(&i) {
                 continue;
             }
-            counter += 1;
-            let mut hbuf = [0u8; 16];
-            hbuf[..8].copy_from_slice(&i.to_le_bytes());
-            hbuf[8..].copy_from_slice(&counter.to_le_bytes());
-            let _ = hb.write_at(&hbuf, 0);
+            HB_INDEX.store(i, std::sync::atomic::Ordering::Relaxed);
+            tick();
             let want_sample = i < 3;
             let o = exec(check, i, a.master, a.tier, want_sample, None, None, Value::Null);
-            evals += 1;
+            evals += o.evals;
             dig.u64(o.digest);
             stats.add(&o.stats);
             probes.merge(&o.probes);
@@ -380,6 +398,23 @@ pub fn worker(check: &dyn Check, a: WorkerArgs) -> i32 {
                 nontrivial += 1;
                 if keys.insert(o.key) {
                     batch_keys.push(o.key);
+                }
+            }
+            for k in &o.more_keys {
+                nontrivial += 1;
+                if keys.insert(*k) {
+                    batch_keys.push(*k);
+                }
+            }
+            for (v, extra) in &o.also {
+                if viols.len() < 64 {
+                    let mut tmp = RunOut::new();
+                    tmp.violation = Some(v.clone());
+                    tmp.replay_extra = extra.clone();
+                    tmp.digest = o.digest;
+                    tmp.wtape = o.wtape.clone();
+                    tmp.ftape = o.ftape.clone();
+                    viols.push(replay_json(check, i, a.master, a.tier, &tmp, 0));
                 }
             }
             if let Some(s) = o.sample.clone() {
